@@ -1,7 +1,7 @@
 (** Property C05 — time-to-live: no entry is observable at or after insert time + ttl.
     The trace theorems are those of C01 ([justified] contains the TTL clause); this file
     spells out the TTL reading. *)
-From MM Require Import Contract.Trace Contract.UnsyncTrace Contract.SyncTrace Contract.Glue
+From MM Require Import Contract.Trace Contract.UnsyncTrace Contract.SyncTrace Contract.Glue Contract.Deadline
   Spec.HistoryFacts Unsync.UInvDefs.
 
 Theorem C05_unsync : forall c ops, cfg_ok c -> N.of_nat (length ops) < 2 ^ 24 ->
@@ -26,6 +26,47 @@ Theorem C05_get_keeps_insert_time : forall f now r k v c,
   r !! k = Some c -> rstep f now r (AGet k (Some v)) !! k = Some (mkRC (rc_val c) (rc_ins c) now).
 Proof. exact rstep_get_hit. Qed.
 
+(** end to end, for EVERY history: a lookup issued at or after the deadline of the key's
+    reference cell shows nothing for the key — get, contains_key and iteration alike, on both
+    caches, whatever maintenance ran in between ([past_deadline] = insert time + ttl <= now or
+    last access + tti <= now; the C05 disjunct is the one this property is about) *)
+Theorem C05_deadline_reached : forall (tti : option N) d now (c : rcell),
+  rc_ins c + d <= now -> past_deadline (Some d) tti now c.
+Proof. intros; left; eauto. Qed.
+Theorem C05_unsync_get_past_deadline : forall c ops k r run rc run' res,
+  cfg_ok c -> N.of_nat (length (ops ++ [UGet k])) < 2 ^ 24 ->
+  u_ref_after c ∅ urun_init ops = Some (r, run) ->
+  r !! k = Some rc -> past_deadline (uc_ttl c) (uc_tti c) (ur_now run) rc ->
+  ustep c run (UGet k) = Ok (run', OVal res) -> res = None.
+Proof. exact u_get_past_deadline. Qed.
+Theorem C05_unsync_contains_past_deadline : forall c ops k r run rc run' b,
+  cfg_ok c -> N.of_nat (length (ops ++ [UContains k])) < 2 ^ 24 ->
+  u_ref_after c ∅ urun_init ops = Some (r, run) ->
+  r !! k = Some rc -> past_deadline (uc_ttl c) (uc_tti c) (ur_now run) rc ->
+  ustep c run (UContains k) = Ok (run', OBool b) -> b = false.
+Proof. exact u_contains_past_deadline. Qed.
+Theorem C05_unsync_iter_past_deadline : forall c ops k r run rc run' l,
+  cfg_ok c -> N.of_nat (length (ops ++ [UIter])) < 2 ^ 24 ->
+  u_ref_after c ∅ urun_init ops = Some (r, run) ->
+  r !! k = Some rc -> past_deadline (uc_ttl c) (uc_tti c) (ur_now run) rc ->
+  ustep c run UIter = Ok (run', OList l) -> forall v, (k, v) ∉ l.
+Proof. exact u_iter_past_deadline. Qed.
+Theorem C05_sync_get_past_deadline : forall c ops k r run rc run' res,
+  s_ref_after c ∅ srun_init ops = Some (r, run) ->
+  r !! k = Some rc -> past_deadline (sc_ttl c) (sc_tti c) (sr_now run) rc ->
+  sstep c run (SGet k) = Ok (run', SOVal res) -> res = None.
+Proof. exact s_get_past_deadline. Qed.
+Theorem C05_sync_contains_past_deadline : forall c ops k r run rc run' b,
+  s_ref_after c ∅ srun_init ops = Some (r, run) ->
+  r !! k = Some rc -> past_deadline (sc_ttl c) (sc_tti c) (sr_now run) rc ->
+  sstep c run (SContains k) = Ok (run', SOBool b) -> b = false.
+Proof. exact s_contains_past_deadline. Qed.
+Theorem C05_sync_iter_past_deadline : forall c ops k r run rc run' l,
+  s_ref_after c ∅ srun_init ops = Some (r, run) ->
+  r !! k = Some rc -> past_deadline (sc_ttl c) (sc_tti c) (sr_now run) rc ->
+  sstep c run SIter = Ok (run', SOList l) -> forall v, (k, v) ∉ l.
+Proof. exact s_iter_past_deadline. Qed.
+
 Check C05_justified_within_ttl : forall d tti now r k v,
   justified (Some d) tti now r k v -> exists c, r !! k = Some c /\ now < rc_ins c + d.
 Print Assumptions C05_unsync.
@@ -33,3 +74,10 @@ Print Assumptions C05_sync.
 Print Assumptions C05_justified_within_ttl.
 Print Assumptions C05_update_restarts.
 Print Assumptions C05_get_keeps_insert_time.
+Print Assumptions C05_deadline_reached.
+Print Assumptions C05_unsync_get_past_deadline.
+Print Assumptions C05_unsync_contains_past_deadline.
+Print Assumptions C05_unsync_iter_past_deadline.
+Print Assumptions C05_sync_get_past_deadline.
+Print Assumptions C05_sync_contains_past_deadline.
+Print Assumptions C05_sync_iter_past_deadline.
